@@ -23,6 +23,7 @@ RULE = ("781 real RF24Network nodes (every valid address of levels 0..4) on one 
         "must be accepted by exactly the nodes of that level on pipe 0. Non-trivial: a "
         "transmission was observed; distinct = (byte set, multicast flag, node, destination "
         "class, role).")
+RULE += (" Later rounds added: per-node histories (interleaved unicasts/multicasts, hops that fail outright) judged like first transmissions incl. the identity of the frame on air; nodes re-addressed at run time compared with fresh ones; partial/extreme address byte customisations; one node customising its bytes in place must not affect the others.")
 REQUIRED = {"listening_entries": 4000, "next_hop_origin": 1000, "next_hop_router": 1000,
             "multicast_level": 50, "path_composition": 500, "history_independent": 300,
             "readdressed_like_fresh": 30, "inplace_isolated": 100}
